@@ -10,6 +10,7 @@ import (
 	"net/http/httptest"
 	"strconv"
 	"strings"
+	"sync"
 	"time"
 )
 
@@ -400,6 +401,38 @@ func runC06(em *vEmitter, r *vRng) {
 			for _, ep := range eps[1:] {
 				do(ep, c06Body{session: tok, username: "alice", password: "late", new: "late" + strconv.Itoa(seq), admin: true}, "valid")
 			}
+		}
+		// concurrent logins on this listener (sequence 2 only; nothing but the session log changes, and the
+		// sequence is over): a wrong password or an unknown user never gets a session, whoever logs in next to it
+		if seq == 2 {
+			var wg sync.WaitGroup
+			var cmu sync.Mutex
+			for g := 0; g < 12; g++ {
+				wg.Add(1)
+				go func(g int) {
+					defer wg.Done()
+					for i := 0; i < 40; i++ {
+						u, pw, right := "root", x.pw["root"], true
+						switch (g + i) % 3 {
+						case 1:
+							u, pw, right = "alice", "definitely-wrong", false
+						case 2:
+							u, pw, right = "ghost", "pw", false
+						}
+						b, _ := json.Marshal(map[string]string{"username": u, "password": pw})
+						rec := httptest.NewRecorder()
+						x.mux.ServeHTTP(rec, httptest.NewRequest("POST", "/api/authenticate", strings.NewReader(string(b))))
+						if (rec.Code == http.StatusOK) != right {
+							cmu.Lock()
+							if x.viol == "" {
+								x.viol = fmt.Sprintf("concurrent logins: authenticate as %q with password %q answered %d (expected %v): %s", u, pw, rec.Code, right, truncS(rec.Body.String(), 120))
+							}
+							cmu.Unlock()
+						}
+					}
+				}(g)
+			}
+			wg.Wait()
 		}
 		coq := fmt.Sprintf("WebSeq %s %s %s %s %d %s", ms.cfgTerm(), ms.tablesTerm(), x.initDir, cList(x.logInit), 600000, cList(x.steps))
 		c := vCase{Prop: "C06", Kind: "webseq", Class: "sequence", Nontrivial: true, Coq: coq, Human: map[string]interface{}{"requests": x.human}}
